@@ -100,7 +100,7 @@ def label_type(ids):
 def admissible(fmt, m):
     """is the network inside the stated domain of format fmt?"""
     nodes, edges = list(m.nodes), list(m.edges)
-    nt, et = label_type(nodes), label_type(edges)
+    nt, et = label_type(nodes + [x for e in m.edges for x in m.all_members(e)]), label_type(edges)
     if nt is None or et is None:
         return False
     if any(isinstance(x, bool) for x in nodes + edges):
